@@ -284,6 +284,44 @@ def root_records(quick):
   return list(proc.imap_unordered(root_worker, jobs, procs=12))
 
 
+def lll_records(quick, rng):
+  """lll.reduce (the wrapper the lattice attacks go through) on small full-rank bases: TLC decides same lattice and shortness."""
+  from paranoid_crypto.lib import lll
+  recs = []
+  mats = []
+  import itertools
+  # every 2 x 2 basis over -3..3, sampled 3 x 3 bases over -4..4, skewed bases (unimodular images of short ones)
+  for v in itertools.product(range(-3, 4), repeat=4):
+    mats.append([[v[0], v[1]], [v[2], v[3]]])
+  for _ in range(400 if quick else 6000):
+    mats.append([[rng.randrange(-4, 5) for _ in range(3)] for _ in range(3)])
+  for _ in range(300 if quick else 3000):
+    d = rng.choice([2, 3])
+    b = [[rng.randrange(-2, 3) for _ in range(d)] for _ in range(d)]
+    for _ in range(6):                      # elementary row operations: same lattice, long vectors
+      i, j = rng.sample(range(d), 2)
+      c = rng.choice([-2, -1, 1, 2])
+      b[i] = [x + c * y for x, y in zip(b[i], b[j])]
+    if max(abs(x) for row in b for x in row) <= 40:
+      mats.append(b)
+  def det(m):
+    if len(m) == 2:
+      return m[0][0] * m[1][1] - m[0][1] * m[1][0]
+    return (m[0][0] * (m[1][1] * m[2][2] - m[1][2] * m[2][1]) - m[0][1] * (m[1][0] * m[2][2] - m[1][2] * m[2][0])
+            + m[0][2] * (m[1][0] * m[2][1] - m[1][1] * m[2][0]))
+  for i, m in enumerate(mats):
+    if det(m) == 0:
+      continue
+    rec = R('lll-%d' % i, 'lll', {'m': m})
+    try:
+      out = lll.reduce([list(row) for row in m])
+      rec['obs'] = {'m': [[int(x) for x in row] for row in out]}
+    except Exception as e:  # pylint: disable=broad-except
+      rec['raised'] = type(e).__name__
+    recs.append(rec)
+  return recs
+
+
 def run(ctx):
   shim.install()
   from paranoid_crypto.lib import ntheory_util as nt, linalg_util as la
@@ -343,6 +381,7 @@ def run(ctx):
     samp.append((rows, [rng.randrange(-9, 10) for _ in range(nc)]))
   recs += solve_records(la, samp, 'samp')
   recs += ut_records(la, ctx.quick, rng)
+  recs += lll_records(ctx.quick, rng)
   recs += small_records(nt, ctx.quick, rng)
   recs += big_records(nt, ctx.quick, rng)
   recs += pavg_records(ls, ctx.quick, rng)
